@@ -26,6 +26,9 @@ def handle (st : DState) (j : Json) : DState × Json :=
   | .str "trim_classify" => (st, trimClassifyOp j)
   | .str "trim_terms" => (st, trimTermsOp j)
   | .str "frob" => (st, frobOp j)
+  | .str "qft" => (st, qftOp j)
+  | .str "iqpe" => (st, iqpeOp j)
+  | .str "binfrac" => (st, binFracOp j)
   | .str "grouping" => (st, groupingOp j)
   | .str "exp_pauliword" => (st, expPauliwordOp j)
   | .str "exp_qubitop" => (st, expQubitOp j)
